@@ -87,6 +87,8 @@ pub(super) fn latest_timestamp_file(
     rotate: bool,
     fmt: &InfixFormat,
 ) -> DateTime<Local> {
+    #[cfg(feature = "verif_hooks")]
+    use crate::verif_hooks::VLocal as Local;
     if rotate {
         Local::now()
     } else {
